@@ -1564,6 +1564,10 @@ class Engine:
         if isinstance(op, (ast.Eq, ast.NotEq)):
             r = self.equal(a, b)
             return r if isinstance(op, ast.Eq) else z3.Not(r)
+        if self.c.consts.get('__opaque_order__') and isinstance(op, (ast.Lt, ast.LtE, ast.Gt, ast.GtE)) and any(isinstance(x, z3.ExprRef) and x.sort() == U for x in (a, b)):
+            # (C12) ordering between values the contract keeps opaque (prices): the outcome is havocked - a fresh Boolean -
+            # which over-approximates every ordering (and the TypeError Python raises for None operands is not modelled)
+            return z3.Bool(fresh_name('opaque_order'))
         if (isinstance(a, z3.ExprRef) and z3.is_bv(a)) or (isinstance(b, z3.ExprRef) and z3.is_bv(b)):
             az, bz = to_z3(a, 'bv64'), to_z3(b, 'bv64')  # signed comparison (z3's < <= > >= on bit-vectors are signed)
         else:
@@ -1757,6 +1761,13 @@ class Engine:
             return self.floordiv(az, self.pow2(bz, st, node), st, node)
         if isinstance(op, ast.Pow) and isinstance(a, int) and a == 2:
             return self.pow2(bz, st, node)
+        if isinstance(op, ast.BitAnd) and self.c.consts.get('__int_bitand_uf__') and z3.is_int(az) and z3.is_int(bz):
+            # (C12) bitwise and of unbounded Python ints: an uninterpreted function constrained only by facts that hold for
+            # all non-negative operands (0 <= a & b <= min(a, b)); everything else about the value is unknown (sound havoc)
+            f = self.uf('int_bitand', ['int', 'int'], 'int')
+            r = f(az, bz)
+            st.assume(z3.Implies(z3.And(az >= 0, bz >= 0), z3.And(r >= 0, r <= az, r <= bz)))
+            return r
         raise Undecided('binary operator %s on symbolic operands' % type(op).__name__)
 
     def numkind(self, v):
@@ -1883,6 +1894,11 @@ class Engine:
         return self.index(cont, idx, st, node)
 
     def index(self, cont, idx, st, node=None):
+        if node is not None and isinstance(cont, dict) and id(node) in st.decided:
+            kind, payload = st.decided[id(node)]  # (C12) a constant-table lookup that forked (const_dict_lookup)
+            if kind == 'raise':
+                raise PyRaise(payload)
+            return payload
         if isinstance(cont, SDict):
             k = to_z3(idx, cont.kt)
             if not getattr(self, 'in_spec', False) and node is not None:
@@ -1902,6 +1918,8 @@ class Engine:
                 if idx in cont:
                     return cont[idx]
                 raise PyRaise(SExc('KeyError'))
+            if node is not None and not getattr(self, 'in_spec', False) and cont and len(cont) <= 64:
+                return self.const_dict_lookup(cont, idx, st, node)
             raise Undecided('symbolic key into a constant dict')
         if isinstance(cont, tuple):
             if isinstance(idx, int):
@@ -2511,6 +2529,108 @@ class Engine:
             self.unmodelled.append('%s.%s' % (_dotted(target) or '<expr>', meth))
             return z3.Const(fresh_name('unmodelled_' + meth), U)
         raise Undecided('method %s on %r not modelled (line %d)' % (meth, recv, node.lineno))
+
+
+    # ---- (C12) additions: constant tables with symbolic keys, modular calls with receivers / optional results
+    def const_dict_lookup(self, table, key, st, node):
+        """`TABLE[key]` for a module-level constant dict and a symbolic key: the statement is re-executed once per entry
+        (under `key == k`, with the entry's concrete value) and once with KeyError when no entry matches"""
+        alts = []
+        conds = []
+        for k_, v_ in table.items():
+            c = self.equal(key, k_)
+            conds.append(c)
+            alts.append(('key=%r' % (k_,), c, 'value', v_))
+        alts.append(('key-missing', z3.Not(z3.Or(*conds)), 'raise', SExc('KeyError')))
+        raise Fork(node, alts)
+
+    def call_contract_ex(self, cc: Contract, args, kw, st, node, receiver=None, wrap=None):
+        """modular call like call_contract, plus: `receiver` binds the callee's `self`; a callee whose declared result type is
+        `Optional[T]` returns through a Fork with two alternatives (None / a fresh T), each assumed to satisfy the callee's
+        postconditions (which must be written so that they evaluate for both, e.g. `result is None or result[0] >= x`);
+        `wrap` maps the raw alternative to the value the callee returns (e.g. v -> (v, None)).  Exceptions the callee's
+        contract allows (`raises`) are not propagated: callers state preconditions under which the callee does not raise,
+        and every `requires` of the callee is an obligation at the call site."""
+        callee = find_function(self.tree if cc.path == self.c.path else ast.parse(core.read_repo(cc.path)), cc.qualname)
+        a = callee.args
+        names = [x.arg for x in a.posonlyargs + a.args]
+        env = dict(self.modconsts)
+        env.update(cc.consts)
+        if names and names[0] == 'self':
+            names = names[1:]
+            if receiver is None:
+                raise Undecided('modular call of method %s without a receiver' % cc.qualname)
+            env['self'] = receiver
+        defaults = a.defaults
+        for n_, d in zip(names[len(names) - len(defaults):], defaults):
+            env[n_] = self.ev(d, State(dict(self.modconsts), st.pc))
+        if len(args) > len(names):
+            raise Undecided('modular call of %s: too many positional arguments' % cc.qualname)
+        for n_, v in zip(names, args):
+            env[n_] = v
+        for k_, v in kw.items():
+            if k_ not in names:
+                raise Undecided('modular call of %s: unknown keyword %s' % (cc.qualname, k_))
+            env[k_] = v
+        missing = [n_ for n_ in names if n_ not in env]
+        if missing:
+            raise Undecided('modular call of %s: no value for %s' % (cc.qualname, missing))
+        for name, (ats, rt) in cc.spec_funcs.items():
+            f = self.uf(name, ats, rt)
+            rtp = parse_type(rt)
+            env[name] = SFunc(name, (lambda f, rtp: lambda eng, s, args, kw, node: from_z3(f(*[to_z3(a) for a in args]), rtp))(f, rtp))
+        s2 = State(env, st.pc)
+        s2.trace = st.trace
+        for i, r in enumerate(cc.requires):
+            self.oblige(s2, 'call/%s/pre#%d@L%d' % (cc.label or cc.qualname, i, node.lineno), self.ev_bool_str(r, s2), clause=r)
+        tstr = cc.types.get('result') or 'U'
+        if isinstance(tstr, tuple) and tstr and tstr[0] == 'optional':  # ('optional', T) for a T that has no string form (records)
+            optional, rt = True, tstr[1]
+        else:
+            tstr = tstr.strip() if isinstance(tstr, str) else tstr
+            optional = isinstance(tstr, str) and tstr.startswith('Optional[') and tstr.endswith(']')
+            rt = parse_type(tstr[len('Optional['):-1] if optional else tstr)
+        wrap = wrap or (lambda v: v)
+
+        def post_of(value, extra):
+            s3 = State(dict(env), list(st.pc))
+            s3.env['result'] = wrap(value)
+            facts = list(extra)
+            saved = self.entry_env
+            self.entry_env = dict(env)  # `old(x)` in the callee's postconditions means the callee's argument values
+            try:
+                for name, e in cc.ensures:
+                    facts.append(self.ev_bool_str(e, s3))
+            finally:
+                self.entry_env = saved
+            facts.extend(s3.pc[len(st.pc):])
+            return facts
+
+        res = fresh_value(rt, 'ret_' + cc.qualname)
+        may_raise = [k_ for k_, v_ in cc.raises.items() if k_ != '*' and isinstance(v_, str)]
+        if not optional and not may_raise:
+            for f_ in post_of(res, wf_constraints(res)):
+                st.assume(f_)
+            return wrap(res)
+        alts = [('%s-returns-value' % cc.qualname, z3.And(*(post_of(res, wf_constraints(res)) or [z3.BoolVal(True)])), 'value', wrap(res))]
+        if optional:
+            alts.insert(0, ('%s-returns-None' % cc.qualname, z3.And(*(post_of(None, []) or [z3.BoolVal(True)])), 'value', wrap(None)))
+        # exceptions the callee's contract allows under a stated condition may be raised whenever that condition holds
+        for cls_, cond_ in cc.raises.items():
+            if cls_ != '*' and isinstance(cond_, str):
+                alts.append(('%s-raises-%s' % (cc.qualname, cls_), self.ev_bool_str(cond_, State(dict(env), list(st.pc))), 'raise', SExc(cls_)))
+        raise Fork(node, alts)
+
+
+def contract_model(cc: Contract, method=False, wrap=None):
+    """a call model (for Contract.calls) that calls `cc` modularly; method=True: the first argument is the receiver"""
+
+    def model(eng, st, args, kw, node):
+        if method:
+            return eng.call_contract_ex(cc, list(args[1:]), kw, st, node, receiver=args[0], wrap=wrap)
+        return eng.call_contract_ex(cc, list(args), kw, st, node, wrap=wrap)
+
+    return model
 
 
 # ---------------------------------------------------------------------------------------------
